@@ -39,6 +39,7 @@ def classify(tags, fields, typ, a_line, b_line, helpers_match_models=True):
         # difference only while each build's isEmptyValue still matches its model.
         if not helpers_match_models:
             return 'omitempty-emptiness:unsafe-vs-safe:helper-no-longer-matches-its-model'
+        return 'omitempty-emptiness:unsafe-vs-safe'
     if fs and all(f.startswith('bad') for f in fs) and 'codec.notfastpath' in t and re.search(r'\[\d*\]uint8', typ):
         return 'damaged-input:byte-slice-or-array-destination:fastpath-vs-reflection'
     if any(f.startswith('<missing') for f in fs):
